@@ -77,6 +77,8 @@ def correspond(ctx):
                 out = K.real(hk, lambda: SigningKey.from_secret_exponent(d, cv))
                 pub = hk.pub_tok()
                 K.add(c, "sk_from_secexp %s %d %s" % (ct, d, pub), out, K.fmt_sk, "secexp")
+                if out[0] == "err":      # a valid d refused: the model disagrees on the line above; the search reports d
+                    continue
                 sk = out[1]
                 vk = sk.verifying_key
                 x, y = K.vk_xy(vk)
